@@ -71,13 +71,28 @@ func (c06) Gen(tier string, seed int64, emit0 func([]Ev)) {
 				pmt = q
 			}
 		}
-		sec := pmtSection(pmt)
-		for _, ptr := range []int{0, 1, 5, 100, 182} {
-			if !thorough && (si+ptr)%2 == 1 && ptr != 0 {
+		sec0, pmt0 := pmtSection(pmt), pmt
+		for _, ptr := range []int{0, 1, 5, 100, 182, 71} {
+			if !thorough && (si+ptr)%2 == 1 && ptr != 0 && ptr != 71 {
 				continue
 			}
+			sec, pmt := sec0, pmt0
+			if ptr == 71 {
+				// pointer_field 71 (0x47, what a sync byte looks like) with a payload of exactly 188 bytes: a section padded to
+				// 116 bytes by a program descriptor (a payload is a payload whatever its first byte and length)
+				if d := 116 - len(sec0); ns > 0 && d >= 2 && d <= 257 {
+					pmt.ProgDescs = append(append([]absDescr(nil), pmt0.ProgDescs...), absDescr{Tag: 0xfe, Body: rndBytes(r, d-2)})
+					sec = pmtSection(pmt)
+				} else if si%3 != 0 {
+					continue
+				}
+			}
 			var before [][]byte
-			switch r.Intn(6) {
+			sel := r.Intn(6)
+			if ptr == 71 {
+				sel = 5 // nothing in front
+			}
+			switch sel {
 			case 0, 1:
 				before = append(before, otherSection(r, r.Intn(20)))
 			case 2:
@@ -94,6 +109,9 @@ func (c06) Gen(tier string, seed int64, emit0 func([]Ev)) {
 				bev = append(bev, B(b))
 			}
 			stuff := []int{0, 1, 3, 17}[r.Intn(4)]
+			if ptr == 71 {
+				stuff = 0
+			}
 			pay := c06Payload(ptr, before, sec, stuff)
 			base := Ev{"abs": absPMTEv(pmt), "ptr": ptr, "before": bev}
 			e := Ev{"op": "pmt", "stuff": stuff, "payload": B(pay)}
